@@ -59,6 +59,7 @@ type State struct {
 	callsN  string // ghost: number of dynamic function-value invocations
 	callsA  string // ghost: array Int -> Int (callee refs)
 	callsR  string // ghost: array Int -> Int (returned refs)
+	keepBase map[string]string
 	dead    bool
 }
 
@@ -88,6 +89,13 @@ type Frame struct {
 	bindings []T
 	top      bool
 	closures map[ssa.Value]*closureInfo
+	names    map[string]namedLocal // source-level local variables (from DebugRef)
+}
+
+type namedLocal struct {
+	v      T
+	ty     types.Type
+	isAddr bool
 }
 
 type closureInfo struct {
@@ -397,6 +405,9 @@ func (vc *VC) heapName(st *State, key, elemSort string) string {
 	ver := st.baseVer
 	if vc.heapImm[key] {
 		ver = "0"
+	}
+	if st.keepBase != nil && strings.HasPrefix(key, st.keepBase["prefix"]) {
+		ver = st.keepBase["ver"]
 	}
 	name := fmt.Sprintf("H_%s@%s", key, ver)
 	if !vc.declared[name] {
